@@ -159,10 +159,12 @@ def sym_iter(v):
 class LazyGen:
     """A generator expression that has not been consumed yet."""
 
-    def __init__(self, interp, node, env):
-        self.interp, self.node, self.env = interp, node, env
+    def __init__(self, interp, node, env, first=None):
+        self.interp, self.node, self.env, self.first = interp, node, env, first
 
     def __iter__(self):
+        if self.first is not None:
+            return self.interp._iterate_from(self.node, self.env, self.first)
         return self.interp.iterate_comprehension(self.node, self.env)
 
 
@@ -627,13 +629,46 @@ class Interp:
         first = self.eval(node.generators[0].iter, env)
         if isinstance(first, (SSet, SMap)):
             return self.symbolic_set_gen(node, env, first)
-        return LazyGen(self, node, env)
+        if isinstance(first, SGen):
+            return self.map_bag(node, env, first)
+        return LazyGen(self, node, env, first)
+
+    def map_bag(self, node, env, bag):
+        """(f(x) for x in bag if p(x)) over a symbolic bag: same binders, mapped values."""
+        if len(node.generators) != 1:
+            raise OutOfReach("nested generator over symbolic bag")
+        g = node.generators[0]
+        parts, scalars = [], []
+        self.pure += 1
+        try:
+            for bound, member, val in bag.parts:
+                sub = Env({}, env)
+                with self.scope(member):
+                    self.bind_target(g.target, val, sub)
+                    conds = [member]
+                    for c in g.ifs:
+                        conds.append(self._as_term(self.truth_term(self.eval(c, sub))))
+                    with self.scope(z3.And(*conds)):
+                        v = self.eval(node.elt, sub)
+                parts.append((bound, z3.And(*conds), v))
+            for sc in bag.scalars:
+                sub = Env({}, env)
+                self.bind_target(g.target, sc, sub)
+                if all(self.truth_term(self.eval(c, sub)) is True for c in g.ifs):
+                    scalars.append(self.eval(node.elt, sub))
+                elif g.ifs:
+                    raise OutOfReach("filtered scalar in symbolic bag")
+        finally:
+            self.pure -= 1
+        return SGen(parts, scalars)
 
     def e_ListComp(self, node, env):
         if len(node.generators) == 1:
             first = self.eval(node.generators[0].iter, env)
             if isinstance(first, (SSet, SMap)):
                 return self.symbolic_set_gen(node, env, first)
+            if isinstance(first, SGen):
+                return self.map_bag(node, env, first)
             return self.comprehension_value(node, env, list, first)
         return self.comprehension_value(node, env, list)
 
@@ -703,15 +738,19 @@ class Interp:
         S = first.keys() if isinstance(first, SMap) else first
         x = S.kind.fresh("x")
         sub = Env({}, env)
-        member = z3.Select(S.dom, x.e)
-        with self.scope(member):
-            self.bind_target(g.target, x, sub)
-            conds = [member]
-            for c in g.ifs:
+        member = sym.select(S.dom, x.e)
+        self.pure += 1  # inside a quantified scope nothing may fork: build terms
+        try:
+            with self.scope(member):
+                self.bind_target(g.target, x, sub)
+                conds = [member]
+                for c in g.ifs:
+                    with self.scope(z3.And(*conds)):
+                        conds.append(self._as_term(self.truth_term(self.eval(c, sub))))
                 with self.scope(z3.And(*conds)):
-                    conds.append(self._as_term(self.truth_term(self.eval(c, sub))))
-            with self.scope(z3.And(*conds)):
-                v = self.eval(node.elt, sub)
+                    v = self.eval(node.elt, sub)
+        finally:
+            self.pure -= 1
         return SGen([(x.e, z3.And(*conds), v)])
 
     @staticmethod
